@@ -37,6 +37,9 @@ THEOREMS = {
         "Dawgs.C13.ConcProps.or_not_jointly_atomic",
         "Dawgs.C13.ConcProps.wrapper_mutex_reduction",
         "Dawgs.C13.ConcProps.simplex_mutex_reduction",
+        "Dawgs.C13.ConcProps.each_delegate_other_wrapper",
+        "Dawgs.C13.ConcProps.each_self_deadlocks",
+        "Dawgs.C13.ConcProps.clone_fresh_lock",
     ],
     "Dawgs.Props.C13Roaring": [
         "Dawgs.C13.RoaringProps.roaring64_xor_self_panics_refuted",
@@ -133,7 +136,7 @@ SPEC = {
             "a binary operation returned with a non-empty receiver or operand, or a deadlock/panic/concurrent run was observed; distinct = distinct "
             "op-line sequences (sha1)",
     "expected_branches": ["path.native", "path.fallback", "path.non-duplex-operand", "operand.self.b32", "operand.self.b64",
-                          "abba.returned", "pairs.runs", "op.comm", "gen.heap_cases", "operand.self.ts32", "operand.self.ts64", "gen.dense_run", "gen.exhaustive_cases", "gen.run_cases", "gen.alias64_cases",
+                          "abba.returned", "pairs.runs", "op.comm", "gen.heap_cases", "op.toids", "op.kindor", "toidsrace.runs", "caddrace.runs", "op.eachcall.ts32/ts32", "op.eachcall.ts64/ts64", "operand.self.ts32", "operand.self.ts64", "gen.dense_run", "gen.exhaustive_cases", "gen.run_cases", "gen.alias64_cases",
                           "conc.runs", "pair.and.b32/ts32", "pair.and.ts32/ts32", "pair.and.b64/ts64", "pair.and.ts64/ts64",
                           "pair.xor.ts64/b64", "pair.or.ts32/b32"],
     "trusted_base": ["RoaringBitmap v2.19.0 native operations assumed to be exact sets (Add, Remove, Contains, Or, And, AndNot, Clone, Clear, "
@@ -178,6 +181,9 @@ MANIFEST = {
             "modelled with container identity and tied by suite heap13; canonical container layout (array iff <= 4096 per chunk); run containers "
             "(a completely full chunk) are judged by the monitor only (suite x13); sync.Mutex semantics; the go/ast extractor. The LTS treats a "
             "delegate as read+write of the wrapped data under the lock; plain (unwrapped) operands are assumed not to be written concurrently. "
+            "Consumers in graph/types.go that take a caller-provided provider (DuplexToGraphIDs, KindBitmaps.AddDuplexToKind, "
+            "ThreadSafeKindBitmap.Or) are tied sequentially and, for DuplexToGraphIDs, probed under a concurrent writer with the oracle "
+            "'no panic, ascending, every ID was a member at some point of the run'; ops/ helpers need a database and use one Slice() call. "
             "Go-memory-model races outside the extracted lock skeleton: -race run of the concurrent suite in the thorough tier and the "
             "paired-Add torn-read cases in both tiers.",
 }
